@@ -183,7 +183,9 @@ func (r *refGraph) paths(start refEdge) [][]refEdge {
 	return out
 }
 
-// classify a permitted path the implementation does not return
+// classify a permitted path the implementation does not return.  The two
+// special classes were findings of the unrepaired walk (fixed in d35dc24); they
+// keep their own keys so that a regression is named precisely.
 func classifyMissing(path []refEdge) string {
 	if len(path) >= 2 {
 		last := path[len(path)-1]
